@@ -122,6 +122,10 @@ func (api *API) mapDecodeBasedOnType(ctx context.Context, mapVal any, value refl
 				// mirrors the encoder: the settings registered for the pointer type decide whether the bytes are wrapped
 				// in an object with the type code or written as a plain hex string
 				innerTS, _ := api.typeSettingsRegistry.GetByType(valueType)
+				if opts.callObject != 0 && value.Pointer() == opts.callObject {
+					// (the array is the object of the call: the settings of the call are its own)
+					innerTS = ts
+				}
 
 				byteSlice, err := mapDecodeBytes(mapVal, innerTS)
 				if err != nil {
